@@ -478,8 +478,12 @@ def render_call(callee, before, cur, layout='plain', rng=None):
     elif layout == 'closed':
         after = ')\ny0 = 2\n'
     elif layout == 'mid' and c == 'E':
-        after = 'q=1)\n'
-    elif layout == 'mid':
+        after = 'q=1)\n'           # cursor inside the name of a complete keyword argument
+    elif layout == 'mideq' and c == 'E' and cur[1]:
+        after = '=1)\n'            # cursor between the name and `=`
+    elif layout == 'mid' and c == 'K':
+        after = '2)\n'             # cursor between `=` and the value
+    elif layout in ('mid', 'mideq'):
         after = ')\n'
     text = head + callee + '(' + sep.join(items + [last])
     if layout == 'spaces':
@@ -860,11 +864,11 @@ def stream_calc(ctx, coq):
             (1, '', False), (2, '', False), (1, 'xs', False), (2, 'kws', False), (0, 'ab', False), (0, 'ab', True)]
     plists = [[(NAMES[i], k) for i, k in enumerate(kl)] for kl in kind_lists(4)]
     # ill-ordered kind sequences too: the transcription must agree everywhere
-    for _ in range(ctx.n(40, 400)):
+    for _ in range(ctx.n(40, 300)):
         n = ctx.rng.randint(1, 5)
         plists.append([(ctx.rng.choice(NAMES[:4]), ctx.rng.randrange(5)) for i in range(n)])
     arglists = [[]] + [list(c) for n in (1, 2) for c in itertools.product(opts, repeat=n)]
-    nbudget = ctx.n(4500, 120000)
+    nbudget = ctx.n(4500, 45000)
     pairs = [(ps, args) for ps in plists for args in arglists]
     if len(pairs) > nbudget * 2 // 3:
         pairs = ctx.rng.sample(pairs, nbudget * 2 // 3)
@@ -920,7 +924,7 @@ def gen_sigs(ctx, tasks):
     # sampled: up to 6 parameters, random names/defaults/annotations/layout
     pool = ['a', 'ab', 'b', 'c', 'ac', 'd', 'x1', 'arg', 'kwarg', 'value', 'self_', 'n', 'long_name']
     kl6 = list(kind_lists(6, 5))
-    for _ in range(ctx.n(300, 4000)):
+    for _ in range(ctx.n(300, 2500)):
         kl = ctx.rng.choice(kl6)
         names = ctx.rng.sample(pool, len(kl))
         var = ctx.rng.choice(list(itertools.islice(variants(kl), 0, 4096)))
@@ -995,7 +999,7 @@ def cursors(names, starred):
 
 
 def gen_index(ctx, tasks):
-    layouts = ['assign', 'nested', 'spaces', 'multiline', 'closed', 'mid']
+    layouts = ['assign', 'nested', 'spaces', 'multiline', 'closed', 'mid', 'mid', 'mideq']
 
     def add_def(form, ps, calls_spec, rng=None, ret=None):
         d = render_def(form, ps, ret=ret, rng=rng)
@@ -1032,7 +1036,7 @@ def gen_index(ctx, tasks):
     # the other forms, layouts, richer argument texts, longer prefixes, up to 6 parameters: sampled
     pool = ['a', 'ab', 'b', 'c', 'ac', 'd', 'abc', 'x1']
     kls = list(kind_lists(6))
-    for _ in range(ctx.n(330, 4000)):
+    for _ in range(ctx.n(330, 2500)):
         kl = ctx.rng.choice(kls)
         names = ctx.rng.sample(pool, len(kl))
         var = None
@@ -1062,7 +1066,7 @@ def gen_index(ctx, tasks):
                 curs += [('S1', ''), ('S2', ''), ('S1', 'xs'), ('S2', 'kws')]
             cur = ctx.rng.choice(curs)
             layout = ctx.rng.choice(['plain', 'plain'] + layouts)
-            if layout == 'mid' and cur[0] in ('S1', 'S2', 'K'):
+            if layout in ('mid', 'mideq') and cur[0] in ('S1', 'S2'):
                 layout = 'closed'
             spec.append((before, cur, layout))
         add_def(form, ps, spec, rng=ctx.rng, ret=ctx.rng.choice([None, None, 'int']) if form != 'init' else None)
@@ -1327,6 +1331,13 @@ def proc_doc(ctx, coq, items):
         elif len(r['sigs']) != 1:
             ctx.deviation(dict(stream='doc', cls='docstring-signature-line'), dict(where=where, lines=r['sigs']),
                           'a definition with one signature has %d signature lines' % len(r['sigs']))
+        # docstring() is the raw text preceded by the signature line(s)
+        for via, sg, raw, full in ((None, r['sigs'], r['raw'], r['full']),) + (
+                (('get_signatures', [r['s_to_string']], r['sraw'], r['sfull']),) if 'sfull' in r else ()):
+            head = '\n'.join(sg)
+            if full != head + ('\n\n' if head and raw else '') + raw:
+                ctx.deviation(dict(stream='doc', cls='docstring-assembly'), dict(where=where, via=via, sigs=sg, raw=raw, full=full),
+                              'docstring() = %r is not the signature line(s) %r, an empty line and the raw docstring %r' % (full, sg, raw))
         # docstring() = signature lines + blank line + raw   (model, evaluated in Coq)
         coq.add('TD', (r['sigs'], r['raw'], r['full']), dict(where=where, sigs=r['sigs'], raw=r['raw'], full=r['full']))
         if 'sfull' in r:
